@@ -16,7 +16,7 @@ def build(cfg):
     sol = cfg.get("sol")
     u = mk(cfg["upolys"], eq_type, output_transform=lambda i, o, p: o + p.eq_params["a"],
            slice_solution=(jnp.s_[sol[0]:sol[1]] if sol else jnp.s_[:]))
-    P = Params(nn_params=u.init_params(), eq_params={"a": jnp.array(cfg["a"])})
+    P = Params(nn_params=u.init_params(), eq_params={"a": jnp.array(cfg["a"]), "junk": jnp.array(0.5)})
     W = lambda w: (jnp.array(w) if isinstance(w, list) else float(w))
     osl = cfg.get("osl")
     kw = dict(obs_slice=jnp.s_[osl[0]:osl[1]]) if osl else {}
@@ -53,7 +53,9 @@ def batch_of(cfg):
         obs = {"pinn_in": jnp.array(cfg["inputs"]), "val": jnp.array(cfg["vals"]), "eq_params": eqp}
     pts = jnp.array(cfg["batch"])
     if cfg["kind"] == "ode":
-        return ODEBatch(temporal_batch=pts[:, 0], obs_batch_dict=obs)
+        nj = len(xo["inputs"]) if xo else len(cfg["batch"])          # (a parameter batch has one row per observation when both are present)
+        pb = {"junk": jnp.arange(nj, dtype=float)[:, None]} if cfg.get("junk_batch") else None
+        return ODEBatch(temporal_batch=pts[:, 0], param_batch_dict=pb, obs_batch_dict=obs)
     if cfg["kind"] == "statio":
         return PDEStatioBatch(inside_batch=pts, border_batch=None, obs_batch_dict=obs)
     return PDENonStatioBatch(times_x_inside_batch=pts, times_x_border_batch=None, obs_batch_dict=obs)
@@ -68,6 +70,7 @@ def gen(rng, what, kind):
     cfg["w"] = [rng.randint(0, 4) / 2 for _ in range(nout)] if (rng.random() < 0.5 and what != "norm") else rng.randint(1, 6) / 2
     if what == "ic" and kind == "ode":
         cfg.update(t0=dy(rng), u0=[float(rng.randint(-2, 2)) for _ in range(nout)])
+        cfg["junk_batch"] = rng.random() < 0.5      # a parameter batch on a key nothing reads: the term is the MEAN over the (identical) rows
     elif what == "ic":
         cfg["icpolys"] = [prand(rng, dim, 2, 2) or {(0,) * dim: 1} for _ in range(nout)]
         if nout == 1 and rng.random() < 0.4:
